@@ -6,7 +6,7 @@
  * the documented type (<0x80), destination and data reaches the wire; length byte <= 127; no sanitizer event. */
 #include "../fw/explore.h"
 #include "../fw/hx.h"
-#include "/repo/include/bidib.h"
+#include "include/bidib.h"
 #include <stdio.h>
 #include <stdlib.h>
 #include <string.h>
